@@ -54,6 +54,8 @@ def rules(ctx):
     from .C14 import refresh_order
     refresh_order(ctx, 'R06.5')
     C02.copy_ctor_counter(ctx, 'R06.5')
+    from .C07 import builders_pure
+    builders_pure(ctx, 'R06.4', E)
     C02.record_balance(ctx, 'R06.5', P.func('PCBO.add_constraint_eq_zero'), 'eq')
     C02.early_exits(ctx, 'R06.5', P.func('PCBO.add_constraint_eq_zero'))
     C02.lam_zero_rule(ctx, 'R06.5', P.func('PCBO.add_constraint_eq_zero'))
